@@ -317,7 +317,7 @@ def sh_schema():
                                    ('tack', BOOL), ('supports_npn', BOOL), ('extensions', OPT(LIST(EXT)))]},
         'Settings': {'fields': [('minVersion', VER), ('maxVersion', VER), ('versions', LIST(VER)),
                                 ('requireExtendedMasterSecret', BOOL), ('use_heartbeat_extension', BOOL),
-                                ('heartbeat_response_callback', OPT(TAG))]},
+                                ('heartbeat_response_callback', OPT(TAG)), ('record_size_limit', OPT(Z))]},
     }
     sc = build_schema(SH_EXTS, extra)
     sc.prelude = SH_PRELUDE
